@@ -4,6 +4,12 @@ Bind/Model.vos Bind/Model.vok Bind/Model.required_vos: Bind/Model.v
 Bind/Proofs.vo Bind/Proofs.glob Bind/Proofs.v.beautified Bind/Proofs.required_vo: Bind/Proofs.v Bind/Model.vo
 Bind/Proofs.vio: Bind/Proofs.v Bind/Model.vio
 Bind/Proofs.vos Bind/Proofs.vok Bind/Proofs.required_vos: Bind/Proofs.v Bind/Model.vos
+Bind/PytdModel.vo Bind/PytdModel.glob Bind/PytdModel.v.beautified Bind/PytdModel.required_vo: Bind/PytdModel.v Bind/Model.vo
+Bind/PytdModel.vio: Bind/PytdModel.v Bind/Model.vio
+Bind/PytdModel.vos Bind/PytdModel.vok Bind/PytdModel.required_vos: Bind/PytdModel.v Bind/Model.vos
+Blocks/ExcProofs.vo Blocks/ExcProofs.glob Blocks/ExcProofs.v.beautified Blocks/ExcProofs.required_vo: Blocks/ExcProofs.v Generated/C16_OpcodeFlags.vo Blocks/Model.vo Blocks/Proofs.vo
+Blocks/ExcProofs.vio: Blocks/ExcProofs.v Generated/C16_OpcodeFlags.vio Blocks/Model.vio Blocks/Proofs.vio
+Blocks/ExcProofs.vos Blocks/ExcProofs.vok Blocks/ExcProofs.required_vos: Blocks/ExcProofs.v Generated/C16_OpcodeFlags.vos Blocks/Model.vos Blocks/Proofs.vos
 Blocks/Model.vo Blocks/Model.glob Blocks/Model.v.beautified Blocks/Model.required_vo: Blocks/Model.v Generated/C16_OpcodeFlags.vo
 Blocks/Model.vio: Blocks/Model.v Generated/C16_OpcodeFlags.vio
 Blocks/Model.vos Blocks/Model.vok Blocks/Model.required_vos: Blocks/Model.v Generated/C16_OpcodeFlags.vos
@@ -49,9 +55,9 @@ Directors/Proofs.vos Directors/Proofs.vok Directors/Proofs.required_vos: Directo
 Directors/Spec.vo Directors/Spec.glob Directors/Spec.v.beautified Directors/Spec.required_vo: Directors/Spec.v Generated/C03_ErrorClasses.vo Directors/Model.vo
 Directors/Spec.vio: Directors/Spec.v Generated/C03_ErrorClasses.vio Directors/Model.vio
 Directors/Spec.vos Directors/Spec.vok Directors/Spec.required_vos: Directors/Spec.v Generated/C03_ErrorClasses.vos Directors/Model.vos
-Extract/ExtractBind.vo Extract/ExtractBind.glob Extract/ExtractBind.v.beautified Extract/ExtractBind.required_vo: Extract/ExtractBind.v Bind/Model.vo
-Extract/ExtractBind.vio: Extract/ExtractBind.v Bind/Model.vio
-Extract/ExtractBind.vos Extract/ExtractBind.vok Extract/ExtractBind.required_vos: Extract/ExtractBind.v Bind/Model.vos
+Extract/ExtractBind.vo Extract/ExtractBind.glob Extract/ExtractBind.v.beautified Extract/ExtractBind.required_vo: Extract/ExtractBind.v Bind/Model.vo Bind/PytdModel.vo
+Extract/ExtractBind.vio: Extract/ExtractBind.v Bind/Model.vio Bind/PytdModel.vio
+Extract/ExtractBind.vos Extract/ExtractBind.vok Extract/ExtractBind.required_vos: Extract/ExtractBind.v Bind/Model.vos Bind/PytdModel.vos
 Extract/ExtractBlocks.vo Extract/ExtractBlocks.glob Extract/ExtractBlocks.v.beautified Extract/ExtractBlocks.required_vo: Extract/ExtractBlocks.v Blocks/Model.vo
 Extract/ExtractBlocks.vio: Extract/ExtractBlocks.v Blocks/Model.vio
 Extract/ExtractBlocks.vos Extract/ExtractBlocks.vok Extract/ExtractBlocks.required_vos: Extract/ExtractBlocks.v Blocks/Model.vos
@@ -157,6 +163,12 @@ Opt/Model.vos Opt/Model.vok Opt/Model.required_vos: Opt/Model.v Opt/Syntax.vos G
 Opt/Proofs.vo Opt/Proofs.glob Opt/Proofs.v.beautified Opt/Proofs.required_vo: Opt/Proofs.v Opt/Syntax.vo Generated/C11_Passes.vo Opt/Model.vo Opt/Spec.vo
 Opt/Proofs.vio: Opt/Proofs.v Opt/Syntax.vio Generated/C11_Passes.vio Opt/Model.vio Opt/Spec.vio
 Opt/Proofs.vos Opt/Proofs.vok Opt/Proofs.required_vos: Opt/Proofs.v Opt/Syntax.vos Generated/C11_Passes.vos Opt/Model.vos Opt/Spec.vos
+Opt/RewriteProofs.vo Opt/RewriteProofs.glob Opt/RewriteProofs.v.beautified Opt/RewriteProofs.required_vo: Opt/RewriteProofs.v Opt/Syntax.vo Generated/C11_Passes.vo Opt/Model.vo Opt/Spec.vo Opt/Proofs.vo Opt/Rewrites.vo
+Opt/RewriteProofs.vio: Opt/RewriteProofs.v Opt/Syntax.vio Generated/C11_Passes.vio Opt/Model.vio Opt/Spec.vio Opt/Proofs.vio Opt/Rewrites.vio
+Opt/RewriteProofs.vos Opt/RewriteProofs.vok Opt/RewriteProofs.required_vos: Opt/RewriteProofs.v Opt/Syntax.vos Generated/C11_Passes.vos Opt/Model.vos Opt/Spec.vos Opt/Proofs.vos Opt/Rewrites.vos
+Opt/Rewrites.vo Opt/Rewrites.glob Opt/Rewrites.v.beautified Opt/Rewrites.required_vo: Opt/Rewrites.v Opt/Syntax.vo Generated/C11_Passes.vo Opt/Model.vo Opt/Spec.vo
+Opt/Rewrites.vio: Opt/Rewrites.v Opt/Syntax.vio Generated/C11_Passes.vio Opt/Model.vio Opt/Spec.vio
+Opt/Rewrites.vos Opt/Rewrites.vok Opt/Rewrites.required_vos: Opt/Rewrites.v Opt/Syntax.vos Generated/C11_Passes.vos Opt/Model.vos Opt/Spec.vos
 Opt/Spec.vo Opt/Spec.glob Opt/Spec.v.beautified Opt/Spec.required_vo: Opt/Spec.v Opt/Syntax.vo Generated/C11_Passes.vo Opt/Model.vo
 Opt/Spec.vio: Opt/Spec.v Opt/Syntax.vio Generated/C11_Passes.vio Opt/Model.vio
 Opt/Spec.vos Opt/Spec.vok Opt/Spec.required_vos: Opt/Spec.v Opt/Syntax.vos Generated/C11_Passes.vos Opt/Model.vos
@@ -169,6 +181,9 @@ Opt/Syntax.vos Opt/Syntax.vok Opt/Syntax.required_vos: Opt/Syntax.v
 Plan/CoverProofs.vo Plan/CoverProofs.glob Plan/CoverProofs.v.beautified Plan/CoverProofs.required_vo: Plan/CoverProofs.v Plan/Model.vo Plan/Proofs.vo
 Plan/CoverProofs.vio: Plan/CoverProofs.v Plan/Model.vio Plan/Proofs.vio
 Plan/CoverProofs.vos Plan/CoverProofs.vok Plan/CoverProofs.required_vos: Plan/CoverProofs.v Plan/Model.vos Plan/Proofs.vos
+Plan/GraphProofs.vo Plan/GraphProofs.glob Plan/GraphProofs.v.beautified Plan/GraphProofs.required_vo: Plan/GraphProofs.v Plan/Model.vo Plan/Proofs.vo Plan/CoverProofs.vo
+Plan/GraphProofs.vio: Plan/GraphProofs.v Plan/Model.vio Plan/Proofs.vio Plan/CoverProofs.vio
+Plan/GraphProofs.vos Plan/GraphProofs.vok Plan/GraphProofs.required_vos: Plan/GraphProofs.v Plan/Model.vos Plan/Proofs.vos Plan/CoverProofs.vos
 Plan/Model.vo Plan/Model.glob Plan/Model.v.beautified Plan/Model.required_vo: Plan/Model.v 
 Plan/Model.vio: Plan/Model.v 
 Plan/Model.vos Plan/Model.vok Plan/Model.required_vos: Plan/Model.v 
@@ -238,9 +253,9 @@ Props/C17.vos Props/C17.vok Props/C17.required_vos: Props/C17.v Booleq/Model.vos
 Props/C18.vo Props/C18.glob Props/C18.v.beautified Props/C18.required_vo: Props/C18.v Flow/Model.vo Flow/Proofs.vo
 Props/C18.vio: Props/C18.v Flow/Model.vio Flow/Proofs.vio
 Props/C18.vos Props/C18.vok Props/C18.required_vos: Props/C18.v Flow/Model.vos Flow/Proofs.vos
-Props/C19.vo Props/C19.glob Props/C19.v.beautified Props/C19.required_vo: Props/C19.v Plan/Model.vo Plan/Proofs.vo Plan/StmtProofs.vo Plan/CoverProofs.vo
-Props/C19.vio: Props/C19.v Plan/Model.vio Plan/Proofs.vio Plan/StmtProofs.vio Plan/CoverProofs.vio
-Props/C19.vos Props/C19.vok Props/C19.required_vos: Props/C19.v Plan/Model.vos Plan/Proofs.vos Plan/StmtProofs.vos Plan/CoverProofs.vos
+Props/C19.vo Props/C19.glob Props/C19.v.beautified Props/C19.required_vo: Props/C19.v Plan/Model.vo Plan/Proofs.vo Plan/StmtProofs.vo Plan/CoverProofs.vo Plan/GraphProofs.vo
+Props/C19.vio: Props/C19.v Plan/Model.vio Plan/Proofs.vio Plan/StmtProofs.vio Plan/CoverProofs.vio Plan/GraphProofs.vio
+Props/C19.vos Props/C19.vok Props/C19.required_vos: Props/C19.v Plan/Model.vos Plan/Proofs.vos Plan/StmtProofs.vos Plan/CoverProofs.vos Plan/GraphProofs.vos
 Props/C20.vo Props/C20.glob Props/C20.v.beautified Props/C20.required_vo: Props/C20.v Merge/Model.vo Merge/Proofs.vo
 Props/C20.vio: Props/C20.v Merge/Model.vio Merge/Proofs.vio
 Props/C20.vos Props/C20.vok Props/C20.required_vos: Props/C20.v Merge/Model.vos Merge/Proofs.vos
@@ -316,6 +331,9 @@ Typegraph/Solver.vos Typegraph/Solver.vok Typegraph/Solver.required_vos: Typegra
 Typegraph/SolverProofs.vo Typegraph/SolverProofs.glob Typegraph/SolverProofs.v.beautified Typegraph/SolverProofs.required_vo: Typegraph/SolverProofs.v Typegraph/Graph.vo Typegraph/Solver.vo Typegraph/Spec.vo Typegraph/SetLemmas.vo Typegraph/RfgProofs.vo Typegraph/PathProofs.vo Typegraph/SearchProofs.vo
 Typegraph/SolverProofs.vio: Typegraph/SolverProofs.v Typegraph/Graph.vio Typegraph/Solver.vio Typegraph/Spec.vio Typegraph/SetLemmas.vio Typegraph/RfgProofs.vio Typegraph/PathProofs.vio Typegraph/SearchProofs.vio
 Typegraph/SolverProofs.vos Typegraph/SolverProofs.vok Typegraph/SolverProofs.required_vos: Typegraph/SolverProofs.v Typegraph/Graph.vos Typegraph/Solver.vos Typegraph/Spec.vos Typegraph/SetLemmas.vos Typegraph/RfgProofs.vos Typegraph/PathProofs.vos Typegraph/SearchProofs.vos
+Typegraph/SolverReach.vo Typegraph/SolverReach.glob Typegraph/SolverReach.v.beautified Typegraph/SolverReach.required_vo: Typegraph/SolverReach.v Typegraph/Graph.vo Typegraph/Solver.vo Typegraph/Spec.vo Typegraph/SetLemmas.vo Typegraph/Reach.vo Typegraph/ReachProofs.vo
+Typegraph/SolverReach.vio: Typegraph/SolverReach.v Typegraph/Graph.vio Typegraph/Solver.vio Typegraph/Spec.vio Typegraph/SetLemmas.vio Typegraph/Reach.vio Typegraph/ReachProofs.vio
+Typegraph/SolverReach.vos Typegraph/SolverReach.vok Typegraph/SolverReach.required_vos: Typegraph/SolverReach.v Typegraph/Graph.vos Typegraph/Solver.vos Typegraph/Spec.vos Typegraph/SetLemmas.vos Typegraph/Reach.vos Typegraph/ReachProofs.vos
 Typegraph/Spec.vo Typegraph/Spec.glob Typegraph/Spec.v.beautified Typegraph/Spec.required_vo: Typegraph/Spec.v Typegraph/Graph.vo Typegraph/Solver.vo
 Typegraph/Spec.vio: Typegraph/Spec.v Typegraph/Graph.vio Typegraph/Solver.vio
 Typegraph/Spec.vos Typegraph/Spec.vok Typegraph/Spec.required_vos: Typegraph/Spec.v Typegraph/Graph.vos Typegraph/Solver.vos
